@@ -795,19 +795,30 @@ theorem vecLit_spansIn (A : Span) (k : LitKind) (parseArr : String → Option Ex
   · subst hf; intro l hl; exact vecLitFromExpr_errsIn k parseArr hp tok injL (.lit l) rfl hl
   · subst hf; exact vecLitFromExpr_errsIn k parseArr hp tok injL
 
+/-- the literal under the invisible groups of a well-formed element lies inside the element -/
+theorem numElemLit_within {A : Span} :
+    (x : Expr) → (l : Lit) → numElemLit x = some l → x.spanWF = true → x.span.within A = true →
+      l.span.within A = true
+  | .group g _, l, h, hwf, hA => by
+      simp only [Expr.spanWF, Bool.and_eq_true] at hwf
+      simp only [numElemLit] at h
+      exact numElemLit_within g l h hwf.2 (within_trans hwf.1 hA)
+  | .lit l', l, h, _, hA => by
+      simp only [numElemLit, Option.some.injEq] at h
+      subst h; exact hA
+  | .path _ _, _, h, _, _ => by simp [numElemLit] at h
+  | .qpath _ _ _, _, h, _, _ => by simp [numElemLit] at h
+  | .array _ _ _, _, h, _, _ => by simp [numElemLit] at h
+  | .other _ _ _, _, h, _, _ => by simp [numElemLit] at h
+
 theorem numElem_errsIn {A : Span} (sp : IntSpec) (inj : Int → α) (x : Expr) (hwf : x.spanWF = true)
     (hA : x.span.within A = true) : (numElem sp inj x).ErrsIn A := by
   have hu : ((Err.custom "Expected array of unsigned integers").withSpan x.span).AllWithin A :=
     ((unsp_custom _).allWithin A).withSpan hA
   unfold numElem
-  simp only []
   split
-  · exact numFromValue_errsIn sp inj _ hA
-  · rename_i g gsp
-    simp only [Expr.spanWF, Bool.and_eq_true] at hwf
-    split
-    · exact numFromValue_errsIn sp inj _ (within_trans hwf.1 hA)
-    · exact errsIn_err hu
+  · rename_i l hl
+    exact numFromValue_errsIn sp inj _ (numElemLit_within x l hl hwf hA)
   · exact errsIn_err hu
 
 theorem numArrayFromExpr_errsIn {A : Span} (sp : IntSpec) (parseArr : String → Option Expr)
@@ -882,14 +893,28 @@ theorem pathList_spansIn (A : Span) (tok : String → α) (injL : List α → α
   constructor <;> intro f hf <;> simp [pathListHooks] at hf
   subst hf; intro items hi; exact (pathListFromList_errsIn _ items hi).map _
 
+theorem callableFromExpr_errsIn {A : Span} (tok : String → α) :
+    (x : Expr) → x.spanWF = true → x.span.within A = true → (callableFromExpr tok x).ErrsIn A
+  | .group g _, hwf, hA => by
+      simp only [Expr.spanWF, Bool.and_eq_true] at hwf
+      simp only [callableFromExpr]
+      exact callableFromExpr_errsIn tok g hwf.2 (within_trans hwf.1 hA)
+  | .other k t s, _, hA => by
+      unfold callableFromExpr
+      split <;> first
+        | exact errsIn_ok A _
+        | exact errsIn_err (unexpectedExprType_allWithin _ hA)
+        | simp_all
+  | .path _ _, _, _ => by simp only [callableFromExpr]; exact errsIn_ok A _
+  | .qpath _ _ _, _, _ => by simp only [callableFromExpr]; exact errsIn_ok A _
+  | .lit _, _, hA => by
+      simp only [callableFromExpr]; exact errsIn_err (unexpectedExprType_allWithin _ hA)
+  | .array _ _ _, _, hA => by
+      simp only [callableFromExpr]; exact errsIn_err (unexpectedExprType_allWithin _ hA)
+
 theorem callable_spansIn (A : Span) (tok : String → α) : (callableHooks tok).SpansIn A := by
   constructor <;> intro f hf <;> simp [callableHooks] at hf
-  subst hf; intro x _ hA; simp only []
-  split
-  · exact errsIn_ok A _
-  · exact errsIn_ok A _
-  · exact errsIn_ok A _
-  · exact errsIn_err (unexpectedExprType_allWithin _ hA)
+  subst hf; exact callableFromExpr_errsIn tok
 
 /-! ### keyed collections (`map!`) -/
 
